@@ -77,15 +77,17 @@ class SshdFamily(Family):
             self.rule = "accepted forms x PID tokens x {write ok, write fails} x {correlator ready, cancelled}; plus failure forms and malformed lines (must not forward)"
             return (G.form_cases(rng, 3000 * n, forms=G.ACCEPTED, oks=("ok", "ok", "fail"), hands=("ready", "cancel"), pids=G.PIDS_OK) +
                     G.form_cases(rng, 600 * n, forms=G.ACCEPTED, oks=("ok", "fail"), hands=("ready", "cancel"), pids=G.PIDS_ODD) +
-                    G.form_cases(rng, 1000 * n, oks=("ok", "fail"), hands=("ready", "cancel")) + G.malformed_cases(rng, 1500 * n))
+                    G.form_cases(rng, 1000 * n, oks=("ok", "fail"), hands=("ready", "cancel")) + G.malformed_cases(rng, 1500 * n) +
+                    G.accepted_with_suffix(rng, 600 * n))
         if p == "C11":
             self.rule = "arbitrary bytes, keyword-prefixed junk, systematic mutations of valid messages, odd PID tokens; non-trivial = produced an event"
-            cs = G.malformed_cases(rng, 8000 * n) + G.form_cases(rng, 1000 * n, pids=G.PIDS_ODD + G.PIDS_OK, adversarial_every=2)
+            cs = G.malformed_cases(rng, 8000 * n) + G.form_cases(rng, 1000 * n, pids=G.PIDS_ODD + G.PIDS_OK, adversarial_every=2) + G.accepted_with_suffix(rng, 600 * n)
             cs += [{"form": None, "fields": None, "pid": "1", "line": k + "A" * 20000, "ok": "ok", "h": "ready"} for k in G.KEYWORDS[:4]]
             return cs
         if p == "C19":
             self.rule = "all forms and malformed lines; counters read from a private registry around each line"
-            return G.form_cases(rng, 4000 * n, oks=("ok", "ok", "fail"), pids=G.PIDS_OK + G.PIDS_ODD[:4]) + G.malformed_cases(rng, 4000 * n)
+            return (G.form_cases(rng, 4000 * n, oks=("ok", "ok", "fail"), pids=G.PIDS_OK + G.PIDS_ODD[:4]) + G.malformed_cases(rng, 4000 * n) +
+                    G.accepted_with_suffix(rng, 600 * n))
         return []
 
     def extra_cases(self, rng, n):
